@@ -9,6 +9,8 @@ changed = []
 for m in sorted(glob.glob('seeded/*/meta.json')):
     d = json.load(open(m))
     sid = os.path.basename(os.path.dirname(m))
+    if d.get('superseded'):
+        continue  # the patched function was rewritten by a later fix: commit; see meta.json
     props = list(d.get('checks_run', {}).keys()) or [d['property']]
     r = subprocess.run(['git', '-C', '/repo', 'apply', os.path.join('/verif', os.path.dirname(m), 'patch.diff')], capture_output=True, text=True)
     if r.returncode != 0:
